@@ -51,6 +51,12 @@ def plan(seed, subbatch):
         members = sample_members(cfg, cfg.randint(1, 3), tfs)
         hexcfg = {"timeframe_fill": fill}
     n = planlib.pick_n(cfg, (2, 12), (5, 50), (20, 160))
+    long_history = kind == "indicator" and cfg.random() < (0.04 if planlib.thorough() else 0.012)
+    if long_history:
+        n = cfg.randint(1000, 1500)
+        members[0]["common"].pop("timeframe", None)
+        members[0]["common"].pop("timeframe_fill", None)
+        tf, tf_s = None, None
     if subbatch == "calm":
         faults, burst, p_empty = {}, None, 0.0
     else:
